@@ -54,6 +54,48 @@ def deliverArms : List String := ["send:s.postC", "recv:s.closing", "default"]
 def postGuard : String × String := ("d.stopped", "ErrMuxClosed")
 def stopAssigns : List String := ["d.subm=nil", "d.stopped=true"]
 
+/-! ### lock order (T1: `Gen.Event.lockSkel` is extracted from event.go on every run)
+
+The interleaving model (`Model/EventConc.lean`) treats every critical section as one atomic
+step. That is only sound if no goroutine can wait for a mutex while holding another one in a
+cyclic fashion. The discipline: mutex CLASSES are ranked `Dispatcher.mutex` < `Subscription.closeMu`
+< `Subscription.postMu`, and a mutex may only be acquired while mutexes of strictly lower rank
+are held (in particular never two mutexes of one class at once, so per-subscription instances
+need no finer order). `lockOrderOK` checks this for the extracted skeleton, following calls
+between the functions of the file. -/
+
+def lockRank : String → Option Nat
+  | "Dispatcher.mutex" => some 0
+  | "Subscription.closeMu" => some 1
+  | "Subscription.postMu" => some 2
+  | _ => none
+
+/-- (function, isCall, mutex class acquired | function called, mutex classes held there) -/
+abbrev LockSkel := List (String × Bool × String × List String)
+
+/-- the mutex classes `f` may acquire, directly or through calls (`fuel` bounds the call depth) -/
+def acquires (sk : LockSkel) : Nat → String → List String
+  | 0, _ => []
+  | fuel + 1, f =>
+    (sk.filter (fun e => e.1 == f)).flatMap fun e =>
+      if e.2.1 then acquires sk fuel e.2.2.1 else [e.2.2.1]
+
+/-- the "held-before" relation: (h, a) when some function acquires `a` (directly or in a callee)
+    while holding `h` -/
+def lockEdges (sk : LockSkel) : List (String × String) :=
+  sk.flatMap fun e =>
+    let acq := if e.2.1 then acquires sk sk.length e.2.2.1 else [e.2.2.1]
+    e.2.2.2.flatMap fun h => acq.map fun a => (h, a)
+
+def edgeOK (e : String × String) : Bool :=
+  match lockRank e.1, lockRank e.2 with
+  | some x, some y => decide (x < y)
+  | _, _ => false
+
+/-- every acquisition is of a known class, and happens only under strictly lower-ranked classes -/
+def lockOrderOK (sk : LockSkel) : Bool :=
+  (sk.all fun e => e.2.1 || (lockRank e.2.2.1).isSome) && (lockEdges sk).all edgeOK
+
 def init (cap : Nat) : State := { cap := cap, stopped := false, subm := [], subs := [] }
 
 /-- apply `f` to the element at index `n` (no-op when out of range) -/
